@@ -178,7 +178,7 @@ def keypadDomain : List Key :=
     the `SS3` code; otherwise the bytes are those of the event of the key the keypad key stands for, and that event
     passes the ordinary round-trip check (`roundtripOK`: xterm's report of the chord, decoded by Vaxis, matches key
     and modifiers).  `KeyKeyPadBegin`: `CSI E` / `SS3 E` by DECCKM / `CSI 1;m E`, decoded back to Begin + modifiers
-    (the `SS3 E` form is written as xterm does, but Vaxis's own decoder has no SS3 arm for it — not judged). -/
+    (`SS3 E` is read back by Vaxis's decoder since the SS3 arm of `decodeKey` has the `E` case, F513). -/
 def keypadOK (u : Uni) (k : Key) (pam ckm : Bool) : Bool :=
   match keypadJudgedAs k pam with
   | some (.inl b) => encodeXterm u k pam ckm == b
@@ -186,8 +186,7 @@ def keypadOK (u : Uni) (k : Key) (pam ckm : Bool) : Bool :=
   | none =>
     if k.keycode = KeyKeyPadBegin then
       match keypadBeginLegacy (xtermMods k) ckm with
-      | some s => encodeXterm u k pam ckm == renderSeq s &&
-          ((ckm && decide (xtermMods k = 0)) || decide (keyArrives u k (decodeKey u s)))
+      | some s => encodeXterm u k pam ckm == renderSeq s && decide (keyArrives u k (decodeKey u s))
       | none => false
     else false
 
